@@ -142,6 +142,8 @@ type Sched struct {
 	Trace    bool
 	traceBuf []string
 	keep     []any // keeps identity-relevant objects alive during the execution
+	costedSwitch bool
+	picks        int
 }
 
 var active atomic.Pointer[Sched]
@@ -189,6 +191,7 @@ type Options struct {
 	HorizonNs  int64
 	StartNowNs int64
 	Trace      bool
+	CostedSwitch bool
 }
 
 var runMu sync.Mutex
@@ -198,7 +201,7 @@ func Run(body func(), opts Options) *Result {
 	runMu.Lock()
 	defer runMu.Unlock()
 	s := &Sched{prefix: opts.Prefix, maxSteps: opts.MaxSteps, horizon: opts.HorizonNs, now: opts.StartNowNs,
-		finished: make(chan Status, 1), objIDs: map[uintptr]int{}, Trace: opts.Trace}
+		finished: make(chan Status, 1), objIDs: map[uintptr]int{}, Trace: opts.Trace, costedSwitch: opts.CostedSwitch}
 	if s.maxSteps == 0 {
 		s.maxSteps = 20000
 	}
@@ -360,7 +363,8 @@ type alt struct {
 // pick decides the next thread to run; fires timers on the way. Returns nil when the execution ended.
 func (s *Sched) pick(cur *Thread) *Thread {
 	for {
-		if len(s.steps) >= s.maxSteps {
+		s.picks++
+		if len(s.steps) >= s.maxSteps || s.picks >= 50*s.maxSteps {
 			s.end(StHorizon)
 			return nil
 		}
@@ -376,7 +380,7 @@ func (s *Sched) pick(cur *Thread) *Thread {
 				continue
 			}
 			if th.pred == nil || th.pred() {
-				alts = append(alts, alt{t: th, pre: curEnabled})
+				alts = append(alts, alt{t: th, pre: curEnabled || (s.costedSwitch && anyThread)})
 				anyThread = true
 			}
 		}
